@@ -1,7 +1,364 @@
-//! (stub — to be filled in) suite `lower`.
-use crate::out::Out;
+//! Lowering ops (C10): fluent expression trees posted through the real builder API, lowered by the
+//! model's own `prepare_for_search` (hook H2), dumped (variables + `Debug` of every propagator) and
+//! enumerated; the Lean model of the lowering must produce the same dump and the same sequence.
+use crate::out::{guarded, Out};
+use crate::rng::Rng;
+use selen::prelude::*;
+use selen::runtime_api::{Constraint, ExprBuilder};
 
-pub fn suite(_out: &mut Out, _seed: u64, _count: u64, _args: &[String]) {}
+#[derive(Clone, Debug)]
+pub enum Ex {
+    V(usize),
+    K(i32),
+    Add(Box<Ex>, Box<Ex>),
+    Sub(Box<Ex>, Box<Ex>),
+    Mul(Box<Ex>, Box<Ex>),
+    Div(Box<Ex>, Box<Ex>),
+    Mod(Box<Ex>, Box<Ex>),
+}
+
+#[derive(Clone, Debug)]
+pub enum Co {
+    Bin(Ex, &'static str, Ex),
+    And(Box<Co>, Box<Co>),
+    Or(Box<Co>, Box<Co>),
+    Not(Box<Co>),
+}
+
+impl Ex {
+    pub fn tokens(&self) -> String {
+        match self {
+            Ex::V(i) => format!("v {i}"),
+            Ex::K(k) => format!("k {k}"),
+            Ex::Add(a, b) => format!("+ {} {}", a.tokens(), b.tokens()),
+            Ex::Sub(a, b) => format!("- {} {}", a.tokens(), b.tokens()),
+            Ex::Mul(a, b) => format!("* {} {}", a.tokens(), b.tokens()),
+            Ex::Div(a, b) => format!("/ {} {}", a.tokens(), b.tokens()),
+            Ex::Mod(a, b) => format!("% {} {}", a.tokens(), b.tokens()),
+        }
+    }
+    /// build with the real smart constructors
+    pub fn build(&self, ids: &[VarId]) -> ExprBuilder {
+        match self {
+            Ex::V(i) => ExprBuilder::from_var(ids[*i]),
+            Ex::K(k) => ExprBuilder::from_val(Val::ValI(*k)),
+            Ex::Add(a, b) => a.build(ids).add(b.build(ids)),
+            Ex::Sub(a, b) => a.build(ids).sub(b.build(ids)),
+            Ex::Mul(a, b) => a.build(ids).mul(b.build(ids)),
+            Ex::Div(a, b) => a.build(ids).div(b.build(ids)),
+            Ex::Mod(a, b) => a.build(ids).modulo(b.build(ids)),
+        }
+    }
+    /// exact value (None: division by zero / inexact quotient) — the arithmetic reading
+    pub fn eval(&self, a: &[i64]) -> Option<i64> {
+        Some(match self {
+            Ex::V(i) => a[*i],
+            Ex::K(k) => *k as i64,
+            Ex::Add(x, y) => x.eval(a)? + y.eval(a)?,
+            Ex::Sub(x, y) => x.eval(a)? - y.eval(a)?,
+            Ex::Mul(x, y) => x.eval(a)? * y.eval(a)?,
+            Ex::Div(x, y) => { let d = y.eval(a)?; if d == 0 { return None; } let n = x.eval(a)?; if n % d != 0 { return None; } n / d }
+            Ex::Mod(x, y) => { let d = y.eval(a)?; if d == 0 { return None; } x.eval(a)? % d }
+        })
+    }
+    /// the tree the builder's smart constructors produce (constant folding, `*1`, `/1`);
+    /// integer/integer division folds to a float: kept unfolded here
+    pub fn fold(&self) -> Ex {
+        match self {
+            Ex::V(_) | Ex::K(_) => self.clone(),
+            Ex::Add(a, b) => match (a.fold(), b.fold()) { (Ex::K(x), Ex::K(y)) => Ex::K(x + y), (x, y) => Ex::Add(Box::new(x), Box::new(y)) },
+            Ex::Sub(a, b) => match (a.fold(), b.fold()) { (Ex::K(x), Ex::K(y)) => Ex::K(x - y), (x, y) => Ex::Sub(Box::new(x), Box::new(y)) },
+            Ex::Mul(a, b) => match (a.fold(), b.fold()) {
+                (Ex::K(x), Ex::K(y)) => Ex::K(x * y),
+                (x, Ex::K(1)) => x,
+                (Ex::K(1), y) => y,
+                (x, y) => Ex::Mul(Box::new(x), Box::new(y)),
+            },
+            Ex::Div(a, b) => match (a.fold(), b.fold()) { (x, Ex::K(1)) if !matches!(x, Ex::K(_)) => x, (x, y) => Ex::Div(Box::new(x), Box::new(y)) },
+            Ex::Mod(a, b) => Ex::Mod(Box::new(a.fold()), Box::new(b.fold())),
+        }
+    }
+    pub fn has_divmod(&self) -> bool {
+        match self {
+            Ex::V(_) | Ex::K(_) => false,
+            Ex::Div(..) | Ex::Mod(..) => true,
+            Ex::Add(a, b) | Ex::Sub(a, b) | Ex::Mul(a, b) => a.has_divmod() || b.has_divmod(),
+        }
+    }
+    pub fn is_linear(&self) -> bool {
+        match self {
+            Ex::V(_) | Ex::K(_) => true,
+            Ex::Add(a, b) | Ex::Sub(a, b) => a.is_linear() && b.is_linear(),
+            Ex::Mul(a, b) => matches!((&**a, &**b), (Ex::V(_), Ex::K(_)) | (Ex::K(_), Ex::V(_)) | (Ex::K(_), Ex::K(_))),
+            _ => false,
+        }
+    }
+}
+
+/// net coefficient per variable of a linear tree (None: not linear in the builder's sense)
+fn lin_coeffs(e: &Ex, sign: i64, acc: &mut std::collections::BTreeMap<usize, i64>) -> bool {
+    match e {
+        Ex::V(i) => { *acc.entry(*i).or_insert(0) += sign; true }
+        Ex::K(_) => true,
+        Ex::Add(a, b) => lin_coeffs(a, sign, acc) && lin_coeffs(b, sign, acc),
+        Ex::Sub(a, b) => lin_coeffs(a, sign, acc) && lin_coeffs(b, -sign, acc),
+        Ex::Mul(a, b) => match (&**a, &**b) {
+            (Ex::V(i), Ex::K(k)) | (Ex::K(k), Ex::V(i)) => { *acc.entry(*i).or_insert(0) += sign * *k as i64; true }
+            (Ex::K(_), Ex::K(_)) => true,
+            _ => false,
+        },
+        _ => false,
+    }
+}
+
+impl Co {
+    /// a top-level comparison whose linear form has no non-zero coefficient (never checked: finding)
+    pub fn is_all_zero_row(&self) -> bool {
+        if let Co::Bin(l, op, r) = self {
+            let (l, r) = (&l.fold(), &r.fold());
+            if *op == "eq" && matches!((l, r), (Ex::V(_), Ex::K(_)) | (Ex::K(_), Ex::V(_))) { return false; }
+            let mut acc = std::collections::BTreeMap::new();
+            if l.is_linear() && r.is_linear() && lin_coeffs(l, 1, &mut acc) && lin_coeffs(r, -1, &mut acc) {
+                return acc.values().all(|c| *c == 0);
+            }
+        }
+        false
+    }
+    pub fn tokens(&self) -> String {
+        match self {
+            Co::Bin(l, op, r) => format!("cmp {op} {} {}", l.tokens(), r.tokens()),
+            Co::And(a, b) => format!("and {} {}", a.tokens(), b.tokens()),
+            Co::Or(a, b) => format!("or {} {}", a.tokens(), b.tokens()),
+            Co::Not(a) => format!("not {}", a.tokens()),
+        }
+    }
+    pub fn build(&self, ids: &[VarId]) -> Constraint {
+        match self {
+            Co::Bin(l, op, r) => {
+                let (l, r) = (l.build(ids), r.build(ids));
+                match *op { "eq" => l.eq(r), "ne" => l.ne(r), "lt" => l.lt(r), "le" => l.le(r), "gt" => l.gt(r), _ => l.ge(r) }
+            }
+            Co::And(a, b) => a.build(ids).and(b.build(ids)),
+            Co::Or(a, b) => a.build(ids).or(b.build(ids)),
+            Co::Not(a) => a.build(ids).not(),
+        }
+    }
+    pub fn eval(&self, a: &[i64]) -> Option<bool> {
+        Some(match self {
+            Co::Bin(l, op, r) => {
+                let (x, y) = (l.eval(a)?, r.eval(a)?);
+                match *op { "eq" => x == y, "ne" => x != y, "lt" => x < y, "le" => x <= y, "gt" => x > y, _ => x >= y }
+            }
+            Co::And(p, q) => p.eval(a)? && q.eval(a)?,
+            Co::Or(p, q) => p.eval(a)? || q.eval(a)?,
+            Co::Not(p) => !p.eval(a)?,
+        })
+    }
+    fn has(&self, f: &dyn Fn(&Co) -> bool) -> bool {
+        f(self) || match self {
+            Co::And(a, b) | Co::Or(a, b) => a.has(f) || b.has(f),
+            Co::Not(a) => a.has(f),
+            _ => false,
+        }
+    }
+    /// matcher of the recorded lowering findings
+    pub fn finding_tag(&self, top: bool) -> &'static str {
+        if top && self.is_all_zero_row() { return "lin-all-zero-coefficients"; }
+        if self.has(&|c| matches!(c, Co::Not(_))) { return "not-ignored"; }
+        if self.has(&|c| match c {
+            Co::Or(a, b) => !matches!((&**a, &**b), (Co::Bin(Ex::V(x), "eq", Ex::K(_)), Co::Bin(Ex::V(y), "eq", Ex::K(_))) if x == y),
+            _ => false }) { return "or-lowered-as-and"; }
+        // a `!=` that is not linearised: nested inside and/or/not (materialised through
+        // `NotEquals`), or with a non-linear side
+        if self.has(&|c| matches!(c, Co::Bin(l, "ne", r) if !(l.fold().is_linear() && r.fold().is_linear()))) { return "neq-noop"; }
+        if !top || matches!(self, Co::And(..) | Co::Or(..) | Co::Not(..)) {
+            if self.has(&|c| matches!(c, Co::Bin(_, "ne", _))) { return "neq-noop"; }
+        }
+        "-"
+    }
+}
+
+pub struct LCase {
+    pub doms: Vec<Vec<i32>>,
+    pub cons: Vec<Co>,
+}
+
+fn build_model(lc: &LCase) -> (Model, Vec<VarId>) {
+    let mut m = Model::default();
+    let mut ids = vec![];
+    for d in &lc.doms {
+        let contiguous = d.windows(2).all(|w| w[1] == w[0] + 1);
+        ids.push(if contiguous { m.int(d[0], *d.last().unwrap()) } else { m.intset(d.clone()) });
+    }
+    for c in &lc.cons {
+        m.new(c.build(&ids));
+    }
+    (m, ids)
+}
+
+/// VarId(0..n) obtained from a scratch model (VarId is an index newtype)
+fn var_ids(n: usize) -> Vec<VarId> {
+    let mut d = Model::default();
+    (0..n).map(|_| d.int(0, 0)).collect()
+}
+
+fn dump_dom(v: &selen::variables::Var) -> String {
+    match v {
+        selen::variables::Var::VarI(s) => {
+            let mut x = s.to_vec();
+            x.sort();
+            if x.len() > 12 && (x[x.len() - 1] - x[0] + 1) as usize == x.len() {
+                format!("[{}..{}#{}]", x[0], x[x.len() - 1], x.len())
+            } else {
+                crate::out::show_ints(&x)
+            }
+        }
+        selen::variables::Var::VarF(f) => format!("F[{},{}]", f.min.to_bits(), f.max.to_bits()),
+    }
+}
+
+pub fn do_lower(lc: &LCase, out: &mut Out) {
+    let r = guarded(|| {
+        let (m, _) = build_model(lc);
+        match m.verif_lower() {
+            Err(e) => format!("error {}", format!("{:?}", e).split(|c: char| !c.is_alphanumeric()).next().unwrap_or("?")),
+            Ok((vars, props)) => {
+                let n = vars.count();
+                let ids = var_ids(n);
+                let doms: Vec<String> = ids.iter().map(|id| dump_dom(&vars[*id])).collect();
+                let ps: Vec<String> = props.get_prop_ids_iter().map(|p| format!("{:?}", props.get_state(p))).collect();
+                format!("vars={} props={}", doms.join("|"), ps.join(" ;; "))
+            }
+        }
+    });
+    match r {
+        None => {
+            let l = out.emit("lw.lower", "panic");
+            // recorded finding: a posted equality emptied a domain and a later `x == y` reads its bounds
+            let eqs = lc.cons.iter().filter(|c| matches!(c, Co::Bin(Ex::V(_), "eq", Ex::V(_)))).count();
+            out.fail(l, "C17", if eqs >= 1 { "empty-domain-view-panic" } else { "-" }, "panic while lowering");
+        }
+        Some(s) => { out.emit("lw.lower", s); }
+    }
+}
+
+pub fn do_enum(lc: &LCase, out: &mut Out) {
+    let r = guarded(|| {
+        let (m, _) = build_model(lc);
+        selen::verif_hooks::set_root_lp_disabled(true);
+        let sols: Vec<Vec<i64>> = m.enumerate().take(20000).map(|s| {
+            // all variables, including the auxiliary ones created by the lowering
+            let mut v = vec![];
+            let mut i = 0;
+            let ids = var_ids(64);
+            while i < 64 {
+                match guarded(|| s[ids[i]]) { Some(Val::ValI(x)) => v.push(x as i64), Some(Val::ValF(f)) => v.push(f as i64), None => break }
+                i += 1;
+            }
+            v
+        }).collect();
+        selen::verif_hooks::set_root_lp_disabled(false);
+        sols
+    });
+    let Some(sols) = r else {
+        let l = out.emit("lw.enum", "panic");
+        let eqs = lc.cons.iter().filter(|c| matches!(c, Co::Bin(Ex::V(_), "eq", Ex::V(_)))).count();
+        out.fail(l, "C17", if eqs >= 1 { "empty-domain-view-panic" } else { "-" }, "panic in enumerate of a fluent model");
+        return;
+    };
+    let parts: Vec<String> = sols.iter().map(|v| v.iter().map(|x| x.to_string()).collect::<Vec<_>>().join(",")).collect();
+    let l = out.emit("lw.enum", format!("n={} sols={}", sols.len(), parts.join(";")));
+    // oracle (C10): projection on the user's variables = truth set of the trees
+    let n = lc.doms.len();
+    let mut want: Vec<Vec<i64>> = vec![];
+    let mut a = vec![0i64; n];
+    fn rec(lc: &LCase, k: usize, a: &mut Vec<i64>, out: &mut Vec<Vec<i64>>) {
+        if k == lc.doms.len() {
+            if lc.cons.iter().all(|c| c.eval(a) == Some(true)) { out.push(a.clone()); }
+            return;
+        }
+        for v in &lc.doms[k] { a[k] = *v as i64; rec(lc, k + 1, a, out); }
+    }
+    rec(lc, 0, &mut a, &mut want);
+    let mut got: Vec<Vec<i64>> = sols.iter().map(|s| s[..n.min(s.len())].to_vec()).collect();
+    got.sort();
+    got.dedup();
+    want.sort();
+    let tag = lc.cons.iter().map(|c| c.finding_tag(true)).find(|t| *t != "-").unwrap_or(
+        if lc.cons.iter().any(|c| c.has(&|c| matches!(c, Co::Bin(l, _, r) if l.has_divmod() || r.has_divmod()))) { "fluent-divmod" } else { "-" });
+    if got != want {
+        let extra: Vec<_> = got.iter().filter(|g| !want.contains(g)).take(1).collect();
+        let missing: Vec<_> = want.iter().filter(|w| !got.contains(w)).take(1).collect();
+        out.fail(l, "C10", tag, format!("solution set of {:?} differs from the truth set of the trees: extra {:?} missing {:?} ({} vs {})",
+            lc.cons.iter().map(|c| c.tokens()).collect::<Vec<_>>(), extra, missing, got.len(), want.len()));
+    }
+}
+
+fn rand_ex(r: &mut Rng, n: usize, depth: usize, nonlin: bool) -> Ex {
+    if depth == 0 || r.chance(1, 4) {
+        return if r.chance(1, 3) { Ex::K(r.range(-3, 4) as i32) } else { Ex::V(r.below(n as u64) as usize) };
+    }
+    let a = Box::new(rand_ex(r, n, depth - 1, nonlin));
+    let b = Box::new(rand_ex(r, n, depth - 1, nonlin));
+    match r.below(if nonlin { 12 } else { 9 }) {
+        0..=3 => Ex::Add(a, b),
+        4..=6 => Ex::Sub(a, b),
+        7 | 8 => if r.chance(1, 2) { Ex::Mul(a, Box::new(Ex::K(r.range(-3, 3) as i32))) } else { Ex::Mul(Box::new(Ex::K(r.range(-3, 3) as i32)), b) },
+        9 => Ex::Mul(a, b),
+        10 => Ex::Div(a, b),
+        _ => Ex::Mod(a, b),
+    }
+}
+
+fn rand_co(r: &mut Rng, n: usize, depth: usize, nonlin: bool) -> Co {
+    let ops = ["eq", "ne", "lt", "le", "gt", "ge"];
+    if depth == 0 || r.chance(2, 3) {
+        let d = r.range(0, 2) as usize;
+        return Co::Bin(rand_ex(r, n, d, nonlin), ops[r.below(6) as usize], rand_ex(r, n, d, nonlin));
+    }
+    match r.below(6) {
+        0..=2 => Co::And(Box::new(rand_co(r, n, depth - 1, nonlin)), Box::new(rand_co(r, n, depth - 1, nonlin))),
+        3 => {
+            // the special `x == a or x == b` shape half of the time
+            if r.chance(1, 2) {
+                let x = r.below(n as u64) as usize;
+                Co::Or(Box::new(Co::Bin(Ex::V(x), "eq", Ex::K(r.range(-3, 4) as i32))), Box::new(Co::Bin(Ex::V(x), "eq", Ex::K(r.range(-3, 4) as i32))))
+            } else {
+                Co::Or(Box::new(rand_co(r, n, depth - 1, nonlin)), Box::new(rand_co(r, n, depth - 1, nonlin)))
+            }
+        }
+        4 => Co::Or(Box::new(rand_co(r, n, depth - 1, nonlin)), Box::new(rand_co(r, n, depth - 1, nonlin))),
+        _ => Co::Not(Box::new(rand_co(r, n, depth - 1, nonlin))),
+    }
+}
+
+fn emit_case(out: &mut Out, lc: &LCase) {
+    for d in &lc.doms {
+        out.emit(format!("lw.var {}", d.iter().map(|x| x.to_string()).collect::<Vec<_>>().join(" ")), "ok");
+    }
+    for c in &lc.cons {
+        out.emit(format!("lw.post {}", c.tokens()), "ok");
+        out.stat(&format!("post.{}", c.tokens().split_whitespace().next().unwrap()));
+    }
+}
+
+pub fn suite(out: &mut Out, seed: u64, count: u64, args: &[String]) {
+    let nonlin = args.iter().any(|a| a == "--nonlinear");
+    let mut r0 = Rng::new(seed ^ 0xC10);
+    for i in 0..count {
+        let mut r = r0.fork();
+        out.case(&format!("lw{i}"));
+        let n = r.range(1, 3) as usize;
+        let doms: Vec<Vec<i32>> = (0..n).map(|_| crate::core::rand_dom(&mut r, -3, 4)).collect();
+        let k = r.range(1, 2);
+        let cons: Vec<Co> = (0..k).map(|_| rand_co(&mut r, n, 2, nonlin)).collect();
+        let lc = LCase { doms, cons };
+        if out.samples.len() < 3 { out.samples.push(lc.cons.iter().map(|c| c.tokens()).collect::<Vec<_>>().join(" ; ")); }
+        emit_case(out, &lc);
+        do_lower(&lc, out);
+        do_enum(&lc, out);
+    }
+}
 
 /// replay of one protocol line of this suite inside the current case
 pub fn replay_line(_out: &mut Out, _line: &str) {}
